@@ -189,6 +189,7 @@ type explorer struct {
 
 	frontier []node
 	depth    int
+	bound    int // depth bound of the run: states of the last level are checked but not kept (they are never expanded)
 }
 
 func (e *explorer) path(idx int32, last int) []Sym {
@@ -310,8 +311,11 @@ func (e *explorer) expand(frontier []node, depth int) (next []node, complete boo
 			if !e.seen.Add(stateHash(e.disc, w, m)) && len(fs) == 0 {
 				continue
 			}
-			idx := int32(len(e.recs))
-			e.recs = append(e.recs, rec{nd.idx, int16(si)})
+			final := depth == e.bound-1
+			if !final {
+				e.recs = append(e.recs, rec{nd.idx, int16(si)})
+			}
+			idx := int32(len(e.recs) - 1)
 			r.States++
 			ill := illegalIn(m, e.alpha)
 			full := append(append([]Sym(nil), base...), s)
@@ -319,7 +323,7 @@ func (e *explorer) expand(frontier []node, depth int) (next []node, complete boo
 			r.Transitions += int64(len(ill))
 			r.Rejected["illegal_call_refused_without_effect"] += int64(len(ill))
 			if len(fs) > 0 {
-				p := e.path(idx, -1)
+				p := full
 				seenA := map[string]bool{}
 				for _, f := range fs {
 					if !seenA[f.Assertion] {
@@ -333,9 +337,11 @@ func (e *explorer) expand(frontier []node, depth int) (next []node, complete boo
 				r.Vacuity["states_with_two_or_more_positions"]++
 			}
 			if len(r.Samples) < 3 && depth >= 2 && len(m.Pos) >= 2 {
-				r.AddSample(e.disc + ": " + symsString(e.path(idx, -1)))
+				r.AddSample(e.disc + ": " + symsString(full))
 			}
-			next = append(next, node{idx, m})
+			if !final {
+				next = append(next, node{idx, m})
+			}
 		}
 	}
 	return next, true
@@ -434,7 +440,7 @@ func main() {
 	seen := core.NewSeen()
 	var es []*explorer
 	for _, disc := range []string{"fresh", "long", "stale"} {
-		e := &explorer{f: f, r: r, disc: disc, alpha: alpha, seen: seen, shr: map[string]int{}}
+		e := &explorer{f: f, r: r, disc: disc, alpha: alpha, seen: seen, shr: map[string]int{}, bound: depth}
 		e.start()
 		es = append(es, e)
 	}
